@@ -5,7 +5,7 @@
    configuration (n_to_select form, threshold, full, warm_start), [inits] the initial selections
    of a cold start.  [state_ok] is the invariant of fitted states; C01_chain_invariant shows
    every fit re-establishes it, so all statements hold after ANY chain of cold/warm fits. *)
-From Verif Require Import ListX Greedy Select ListXP GreedyP SelectP C01Thm SelBuf SelBufP.
+From Verif Require Import ListX Greedy Select ListXP GreedyP SelectP C01Thm SelBuf SelBufP SelBufRefP.
 From Coq Require Import PrimFloat.
 From Coq Require Import Sorting.Permutation Sorting.Sorted.
 
@@ -236,6 +236,28 @@ Theorem C01_cold_fit_forgets_history :
     bc_warm c = false -> bfit cand ycand prev c inits str = bfit cand ycand prev' c inits str.
 Proof. exact bfit_cold_history. Qed.
 Print Assumptions C01_cold_fit_forgets_history.
+
+(* The abstract model [sfit] (about whose loop C01_chain_invariant ... C01_threshold_stop above and
+   the farthest-point / leverage-score theorems of C02, C06, C07 speak) is an abstraction of the
+   buffer-level model: whenever the buffer-level fit succeeds from a consistent state, the
+   abstract fit succeeds from the state it stands for ([prev_rel]: same selection sequence and
+   first_score_), with the same stop flag; its selection sequence is the one underlying the
+   buffers, what the index buffer shows is [reported_sel] of it, and both leave the same score
+   stream and first_score_ behind. *)
+Theorem C01_buf_refines_abstract :
+  forall cand ycand pg pb c inits str k b st tr,
+    prev_rel pg pb ->
+    (c_warm c = true -> bprev_ok cand ycand pb) ->
+    (c_warm c = false -> NoDup inits /\ in_rng (length cand) inits) ->
+    resolve_n (length cand) (c_nts c) = Some k ->
+    (length (sel_before pb (bcfg_of c) inits) <= k)%nat ->
+    bfit cand ycand pb (bcfg_of c) inits str = BFitted b st tr ->
+    exists g, sfit cand ycand pg c inits str = Fitted g st /\
+              sel g = sel_before pb (bcfg_of c) inits ++ kept_idx tr /\
+              reported_sel g st (n_before pg c inits) = b_idx b /\
+              first g = b_first b /\ b_n b = length (sel g) /\ sst g = b_str b.
+Proof. exact bfit_refines_sfit_flat. Qed.
+Print Assumptions C01_buf_refines_abstract.
 
 (* Consequences of finding F2 for a warm start after a stop that cut selections off, on the
    faithful model (each replayed on the implementation by the check, all under the F2 key):
